@@ -9,7 +9,7 @@
   ppf u * scale + loc` where `ppf` (= `scipy.special.ndtri`) is a parameter, assumed monotone (resp. a right inverse of
   the standard normal CDF `Φ`) exactly where a theorem says so.
 -/
-import Proofs.C08
+import Proofs.C08Lex
 
 namespace Taurex.C08
 open Taurex.Priors
@@ -183,18 +183,20 @@ theorem default_from_bounds (b0 b1 : ℝ) :
 
 /-! ### prior text -/
 
-/-- **Print/parse round trip, token level.**  For every call (any name, any keyword list, numbers carried as
-    literal tokens) the parser recovers exactly the call from its printed token sequence.
-
-    Full statement intended by the design: `parsePrior (printPrior c) = some c` on strings, for every call whose name
-    and keywords are identifiers and whose numbers are literals of the documented form.  Missing here: the
-    character-level lexer (`lex (text of tokens) = tokens`); it is exercised by the correspondence check only
-    (`parsePrior (printPrior c) = c` is evaluated by the driver on every generated text, and the printed text is
-    fed to the real `parse_priors`). -/
-theorem parse_print_partial (c : Call String) : parseToks (printToks c) = some c := by
+/-- print/parse round trip at token level: for every call (any name, any keyword list, numbers carried as literal
+    tokens) the parser recovers exactly the call from its printed token sequence -/
+theorem parse_print_tokens (c : Call String) : parseToks (printToks c) = some c := by
   unfold parseToks printToks
   simp only
   rw [parseArgs_printArgs c.args _ (length_printArgs_ge c.args)]
+
+/-- **Print/parse round trip on text.**  For every prior description whose class name and keywords are identifiers
+    and whose numbers are literals of the documented form `[+-](digits[.[digits]] | .digits)[(e|E)[+-]digits]`
+    (`WFCall`, numbers carried as their literal text), parsing the printed text gives back the description. -/
+theorem parse_print (c : Call String) (h : WFCall c) : parsePrior (printPrior c) = some c := by
+  unfold parsePrior printPrior parseChars
+  rw [String.toList_ofList, lex_render_printToks c h]
+  exact parse_print_tokens c
 
 /-! ### non-vacuity -/
 
@@ -224,10 +226,34 @@ example : defaultPrior FitMode.log (1 : ℝ) 100 ≠ none := by
 
 /-- the documented example `LogUniform(lin_bounds=(1e-12, 1e-2))` round-trips through the token printer -/
 example : parseToks (printToks ⟨"LogUniform", [("lin_bounds", .tuple ["1e-12", "1e-2"])]⟩) =
-    some ⟨"LogUniform", [("lin_bounds", .tuple ["1e-12", "1e-2"])]⟩ := parse_print_partial _
+    some ⟨"LogUniform", [("lin_bounds", .tuple ["1e-12", "1e-2"])]⟩ := parse_print_tokens _
 
 /-- …and the text itself lexes and parses to that call -/
 example : parsePrior "LogUniform(lin_bounds=(1e-12, 1e-2))" =
     some ⟨"LogUniform", [("lin_bounds", .tuple ["1e-12", "1e-2"])]⟩ := by decide +kernel
+
+/-- `parse_print` is not vacuous: a call with two keywords, a tuple and a list, signed / fractional / exponent literals
+    is well formed -/
+example : WFCall ⟨"LogUniform", [("lin_bounds", .tuple ["1e-12", "-.5E+2"]), ("bounds", .list ["3.", "+0.25"])]⟩ := by
+  refine ⟨⟨'L', "ogUniform".toList, by decide, by decide, by decide⟩, ?_⟩
+  intro a ha
+  simp only [List.mem_cons, List.not_mem_nil, or_false] at ha
+  rcases ha with rfl | rfl
+  · refine ⟨⟨'l', "in_bounds".toList, by decide, by decide, by decide⟩, ?_⟩
+    intro x hx
+    simp only [List.mem_cons, List.not_mem_nil, or_false] at hx
+    rcases hx with rfl | rfl
+    · exact ⟨⟨[], ['1'], none, some ('e', ['-'], ['1', '2'])⟩,
+        ⟨Or.inl rfl, by decide, by decide, by decide, Or.inr (Or.inr rfl), by decide, by decide⟩, by decide⟩
+    · exact ⟨⟨['-'], [], some ['5'], some ('E', ['+'], ['2'])⟩,
+        ⟨Or.inr (Or.inr rfl), by decide, ⟨by decide, Or.inr (by decide)⟩, by decide, Or.inr (Or.inl rfl), by decide,
+          by decide⟩, by decide⟩
+  · refine ⟨⟨'b', "ounds".toList, by decide, by decide, by decide⟩, ?_⟩
+    intro x hx
+    simp only [List.mem_cons, List.not_mem_nil, or_false] at hx
+    rcases hx with rfl | rfl
+    · exact ⟨⟨[], ['3'], some [], none⟩, ⟨Or.inl rfl, by decide, ⟨by decide, Or.inl (by decide)⟩, trivial⟩, by decide⟩
+    · exact ⟨⟨['+'], ['0'], some ['2', '5'], none⟩,
+        ⟨Or.inr (Or.inl rfl), by decide, ⟨by decide, Or.inl (by decide)⟩, trivial⟩, by decide⟩
 
 end Taurex.C08
